@@ -18,8 +18,8 @@ package types
 //@   ensures [cases spec.nat_l(x) 0..8] complete: (len(data) >= int(spec.nat_len(x)) && forall(i, 0, 9, i < int(spec.nat_len(x)) ==> data[i] == spec.nat_byte(x, uint64(i)))) ==> (result1 == nil && result0 == x)
 // ---- the protocol codec's decoder (C13, C14) ----
 //@ pred wf_dec(d) = d != nil && d.buf != nil && d.buf.i >= 0 && d.buf.i <= int64(len(d.buf.s)) && len(d.buf.s) < 4294967296
-//@ stable ValidatorsCount CoresCount EpochLength AvailBitfieldBytes MaxLookupAge
-//@ pred params_ok() = ValidatorsCount >= 1 && ValidatorsCount <= 1023 && CoresCount >= 1 && CoresCount <= 341 && EpochLength >= 1 && EpochLength <= 600 && AvailBitfieldBytes >= 1 && AvailBitfieldBytes <= 43 && MaxLookupAge >= 1 && MaxLookupAge <= 14400
+//@ stable ValidatorsCount CoresCount EpochLength AvailBitfieldBytes MaxLookupAge ValidatorsSuperMajority
+//@ pred params_ok() = ValidatorsCount >= 1 && ValidatorsCount <= 1023 && CoresCount >= 1 && CoresCount <= 341 && EpochLength >= 1 && EpochLength <= 600 && AvailBitfieldBytes >= 1 && AvailBitfieldBytes <= 43 && MaxLookupAge >= 1 && MaxLookupAge <= 14400 && ValidatorsSuperMajority >= 1 && ValidatorsSuperMajority <= 683
 
 //@ func (*Decoder).decodeUintFromReader
 //@   props C12 C13 C14
@@ -28,6 +28,7 @@ package types
 //@   requires wf: wf_dec(d)
 //@   ensures wf: wf_dec(d)
 //@   let i0 = d.buf.i
+//@   ensures progress: d.buf.i >= i0
 //@   ensures [cases spec.nat_l(result0) 0..8] strict: result1 == nil ==> d.buf.i == i0 + int64(spec.nat_len(result0)) && forall(k, 0, 9, k < int(spec.nat_len(result0)) ==> d.buf.s[int(i0)+k] == spec.nat_byte(result0, uint64(k)))
 //@   ghost x uint64
 //@   ensures [cases spec.nat_l(x) 0..8] complete: (int64(len(d.buf.s)) - i0 >= int64(spec.nat_len(x)) && forall(k, 0, 9, k < int(spec.nat_len(x)) ==> d.buf.s[int(i0)+k] == spec.nat_byte(x, uint64(k)))) ==> (result1 == nil && result0 == x)
@@ -41,29 +42,43 @@ package types
 //@   ensures bounded: result1 == nil ==> result0 <= uint64(len(d.buf.s)) - uint64(d.buf.i)
 //@   ensures failed: result1 != nil ==> result0 == 0
 //@   let i0 = d.buf.i
+//@   ensures progress: d.buf.i >= i0
 //@   ensures [cases spec.nat_l(result0) 0..8] strict: result1 == nil ==> d.buf.i == i0 + int64(spec.nat_len(result0)) && forall(k, 0, 9, k < int(spec.nat_len(result0)) ==> d.buf.s[int(i0)+k] == spec.nat_byte(result0, uint64(k)))
 //@   assigns d.buf.i, d.buf.prevRune
 
 //@ func (*Decoder).DecodeInteger
 //@   props C13 C14
+//@   spec nat.smt2
 //@   requires wf: wf_dec(d)
 //@   ensures wf: wf_dec(d)
+//@   let i0 = d.buf.i
+//@   ensures progress: d.buf.i >= i0
+//@   ensures [cases spec.nat_l(result0) 0..8] strict: result1 == nil ==> d.buf.i == i0 + int64(spec.nat_len(result0)) && forall(k, 0, 9, k < int(spec.nat_len(result0)) ==> d.buf.s[int(i0)+k] == spec.nat_byte(result0, uint64(k)))
 //@   assigns d.buf.i, d.buf.prevRune
 
 //@ func (*Decoder).ReadPointerFlag
 //@   props C13 C14
 //@   requires wf: wf_dec(d)
 //@   ensures wf: wf_dec(d)
+//@   let i0 = d.buf.i
+//@   ensures ok: result1 == nil ==> d.buf.i == i0+1 && i0 < int64(len(d.buf.s)) && result0 == d.buf.s[int(i0)]
+//@   ensures eof: result1 != nil ==> d.buf.i == i0 && result0 == 0 && i0 >= int64(len(d.buf.s))
 //@   assigns d.buf.i, d.buf.prevRune
 
 //@ func (*Decoder).ReadLegnthFlag
 //@   props C13 C14
 //@   requires wf: wf_dec(d)
 //@   ensures wf: wf_dec(d)
+//@   let i0 = d.buf.i
+//@   ensures ok: result1 == nil ==> d.buf.i == i0+1 && i0 < int64(len(d.buf.s)) && result0 == d.buf.s[int(i0)]
+//@   ensures eof: result1 != nil ==> d.buf.i == i0 && result0 == 0 && i0 >= int64(len(d.buf.s))
 //@   assigns d.buf.i, d.buf.prevRune
 
 //@ func (*Decoder).ReadErrorByte
 //@   props C13 C14
 //@   requires wf: wf_dec(d)
 //@   ensures wf: wf_dec(d)
+//@   let i0 = d.buf.i
+//@   ensures ok: result1 == nil ==> d.buf.i == i0+1 && i0 < int64(len(d.buf.s)) && result0 == d.buf.s[int(i0)]
+//@   ensures eof: result1 != nil ==> d.buf.i == i0 && result0 == 0 && i0 >= int64(len(d.buf.s))
 //@   assigns d.buf.i, d.buf.prevRune
